@@ -29,4 +29,42 @@ for shape in [(2,3),(2,3,4),(1,2,2,3),(4,),(3,1,2)]:
     m=np.max(a,axis=tuple(range(1,len(shape))),keepdims=True) if len(shape)>1 else a
     M=np_call('max',[A],{'axis':tuple(range(1,len(shape))),'keepdims':True}) if len(shape)>1 else A
     assert NdArr.broadcast(lambda x,y:x-y, A, M).tolist()==(a-m).tolist()
+# general indexing, stores, constructors, searchsorted (also on unsorted input)
+from sa.ndarr import np_create
+for shape in [(3, 5), (2, 3, 4), (6,)]:
+    a = np.arange(int(np.prod(shape))).reshape(shape) * 3 - 7
+    A = NdArr.from_nested(a.tolist())
+    A.kind = 'i'
+    keys = [0, -1, slice(1, None), slice(None, 2), slice(None, None, 2)]
+    if len(shape) >= 2:
+        keys += [(0, slice(1, None)), (slice(None), 1), (-1, -1), (slice(0, 2), slice(1, 3)), (1, slice(None, None, -1))]
+    for k in keys:
+        want = a[k]
+        got = A.getitem(k)
+        assert (got.tolist() if isinstance(got, NdArr) else got) == want.tolist(), (shape, k)
+        for val in (11, None):
+            b, B = a.copy(), NdArr(A.shape, A.data, 'i')
+            if val is None:
+                if np.ndim(want) == 0:
+                    continue
+                v = (np.arange(want.size).reshape(want.shape) + 100)
+                b[k] = v
+                B.setitem(k, NdArr.from_nested(v.tolist()))
+            else:
+                b[k] = val
+                B.setitem(k, val)
+            assert B.tolist() == b.tolist(), (shape, k, val)
+        b, B = a.copy(), NdArr(A.shape, A.data, 'i')
+        b[k] += 4
+        cur = B.getitem(k)
+        B.setitem(k, NdArr.broadcast(lambda x, y: x + y, cur, 4) if isinstance(cur, NdArr) else cur + 4)
+        assert B.tolist() == b.tolist(), (shape, k)
+f = np_create('full', [(2, 3), -1], {'dtype': type('D', (), {'name': 'np.int64'})()})
+assert f.tolist() == np.full((2, 3), -1, dtype=np.int64).tolist() and f.kind == 'i'
+assert np_create('arange', [4], {}).tolist() == np.arange(4).tolist()
+assert np_create('zeros', [(2, 2)], {}).tolist() == np.zeros((2, 2)).tolist()
+for seq in ([0, 1, 2, 5, 9], [0, -1, -1], [0, 1, -1, -1, -1], [3, 4, 5, -1], [-1, -1], [], [2, 2, 2, 3]):
+    for v in range(-2, 11):
+        for side in ('left', 'right'):
+            assert np_create('searchsorted', [list(seq), v], {'side': side}) == int(np.searchsorted(np.array(seq, dtype=np.int64), v, side=side)), (seq, v, side)
 print('ndarr model agrees with numpy on the sample')
